@@ -53,7 +53,7 @@ def lint_case(model_real):
     except Exception as exc:  # pylint: disable=broad-except
         raised = f'{type(exc).__name__}: {exc}'[:120]
     return {'kind': 'lint', 'model': A.amodel(model_real), 'warnings': [parse_warning(w) for w in ws], 'raised': raised,
-            'unchanged': model_real == before, 'same2': ws == ws2, 'base': {}, 'edited': {}, 'warning': {}}, ws
+            'unchanged': model_real == before, 'same2': ws == ws2, 'base': {}, 'edited': {}, 'warning': {}, 'texts': list(ws)}, ws
 
 
 def observe_run(model_real, globs):
@@ -143,6 +143,42 @@ def shipped():
     return out
 
 
+OTHER_PROCESS = """
+import json, sys
+from bare_script import lint_script
+from harness import abstraction as A
+out = []
+for m in json.load(sys.stdin):
+    try:
+        out.append(lint_script(A.gmodel(m)))
+    except Exception as exc:
+        out.append(['raised ' + type(exc).__name__])
+json.dump(out, sys.stdout)
+"""
+
+
+def other_processes(cases, limit):
+    """"the same model always gives the same warnings" - also in another interpreter process with another string-hash seed:
+    the sampled lint cases are linted again in fresh processes (PYTHONHASHSEED 1 and 2); a different list clears same2"""
+    import os
+    import subprocess
+    import sys
+    pick = [c for c in cases if c['kind'] == 'lint' and len(c['warnings']) >= 2 and not c['raised']
+            and not any(s['k'] == 'include' for s in c['model'])][:limit]
+    if not pick:
+        return 0
+    payload = json.dumps([c['model'] for c in pick])
+    for seed in ('1', '2'):
+        env = dict(os.environ, PYTHONHASHSEED=seed)
+        r = subprocess.run([sys.executable, '-c', OTHER_PROCESS], input=payload, capture_output=True, text=True, env=env, timeout=1200, check=False)
+        if r.returncode != 0:
+            raise tlc.MachineryError('lint in another process failed: ' + r.stderr[-300:])
+        for c, ws in zip(pick, json.loads(r.stdout)):
+            if ws != c['texts']:
+                c['same2'] = False
+    return len(pick)
+
+
 def canaries(case):
     c = json.loads(json.dumps(case))
     if case['kind'] == 'lint':
@@ -179,6 +215,7 @@ def run(ctx, replay=None):
     nalpha = len(jobs)
     cases += [c for cs in F.pmap(rand_job, [(ctx.seed * 104729 + i,) for i in range(ctx.pick(2500, 60000))]) for c in cs]
     cases += shipped()
+    ctx.notes['models_linted_again_in_other_processes'] = other_processes(cases, ctx.pick(1500, 20000))
     F.judge(ctx, 'Trace_Lint', cases, canaries, key_fields=('kind', 'model', 'warning'),
             describe=lambda c: {'kind': c['kind'], 'warnings': c['warnings'][:6], 'warning_acted_on': c['warning'],
                                 'source': A.jump_text(c['model'])[:25] if not any(s['k'] == 'include' for s in c['model']) else '(shipped script)'},
